@@ -109,7 +109,7 @@ def untyped_node_params(b):
 
 
 class SiteEvaluator:
-    def __init__(self, w, max_paths=6000):
+    def __init__(self, w, max_paths=20000):
         self.w = w
         self.g = grammar.load()
         self.max_paths = max_paths
@@ -221,7 +221,7 @@ class SiteEvaluator:
             pass
         return table
 
-    def evaluate(self, b, param, parent_kind, sequence=None, max_steps=250000, ctx_mode=None, param_val=None):
+    def evaluate(self, b, param, parent_kind, sequence=None, max_steps=800000, ctx_mode=None, param_val=None):
         """run converter b with its node parameter bound to a node of kind parent_kind; returns (outcomes, whole-function results).
         ctx_mode: evaluate with a Context of that mode (the Context methods are then entered, so that mode changes are tracked)"""
         key = (b.id, parent_kind, None if sequence is None else tuple(sequence), ctx_mode, param_val is not None)
@@ -379,7 +379,7 @@ def outcome_summary(o):
     return tuple(summarise_atom(a, o.item) for a in o.atoms)
 
 
-def run_function(w, b, params, no_inline=None, accessor_model=None, max_steps=120000, max_paths=3000, loop_items=None, converter_pred=None):
+def run_function(w, b, params, no_inline=None, accessor_model=None, max_steps=400000, max_paths=10000, loop_items=None, converter_pred=None):
     """abstractly evaluate local function b with the given parameter values ({index: value}); returns
     [(result, events, assumed)] for every complete path (None on path explosion)"""
     ip = Interp(w, max_depth=12, max_paths=max_paths, max_steps=max_steps, converter_pred=converter_pred)
@@ -408,10 +408,10 @@ def context(mode=None, suppressed=None, after_hash=None):
     return Agg('typstyle_core::pretty::context::Context', None, [md, TOP if suppressed is None else Const(suppressed), TOP if after_hash is None else Const(after_hash)])
 
 
-def evaluate_sequence(w, b, param, parent_kind, seq, no_inline=None, max_paths=4000, ctx=None, extra=None, hooks=None, with_wholes=False, edge_hint=None, peel=None, respect_kinds=False, from_start=False):
+def evaluate_sequence(w, b, param, parent_kind, seq, no_inline=None, max_paths=12000, ctx=None, extra=None, hooks=None, with_wholes=False, edge_hint=None, peel=None, respect_kinds=False, from_start=False):
     """evaluate consecutive iterations <seq[0], seq[1], ..> of every loop over syntax nodes in converter b (state carried
     from one iteration to the next, all other state unknown); returns [(loop, [events of step 0], [events of step 1], ..)]"""
-    ip = Interp(w, max_depth=12, max_paths=max_paths, max_steps=200000)
+    ip = Interp(w, max_depth=12, max_paths=max_paths, max_steps=600000)
     ip.no_inline = no_inline or (lambda tb: (tb.short.endswith('::print_doc') or tb.short.endswith('collect_markup_repr') or 'context::{impl#' in tb.short
                                              or 'get_fold_style' in tb.short or tb.short.startswith('attr::') or tb.short.endswith('has_comment_children')) and tb.id != b.id)
     def items(interp, m, f, t):
